@@ -30,6 +30,9 @@ INTERNAL_PATTERNS = [
     ("bare_assert", re.compile(r"^assertion failed: |assertion `left == right` failed|assertion `left != right` failed")),
     ("refcell", re.compile(r"already borrowed|already mutably borrowed")),
     ("capacity_overflow", re.compile(r"capacity overflow")),
+    # the text of a syn parse error surfacing as a panic: a `parse_quote!` / `parse2(..).unwrap()` of tokens the macro built
+    # itself failed - the macro produced something unparsable (no deliberate panic of derive_more reads like this)
+    ("built_unparsable_tokens", re.compile(r"^(unexpected token|unexpected end of input|expected (one of|identifier|ident|`|an? |string literal|expression|lifetime|type)|cannot parse)")),
 ]
 
 
